@@ -803,6 +803,9 @@ int main(int argc, char **argv) {
 
     // Handle .o or .a
     if (type == FILE_OBJ || type == FILE_AR || type == FILE_DSO) {
+      // Without a link step nobody would notice a missing input.
+      if (!file_exists(input))
+        error("%s: %s", input, strerror(ENOENT));
       strarray_push(&ld_args, input);
       continue;
     }
